@@ -138,6 +138,7 @@ func labelledKind(name string) bool {
 }
 
 type runOutcome struct {
+	curNames   map[string]FuncNames
 	frs        []*FuncResult
 	violations []violation
 	known      []string
@@ -195,12 +196,17 @@ func selectSpecs(eng *Engine, pc *PropConfig) ([]*FuncSpec, error) {
 func runProperty(root, repo string, pc *PropConfig, tier string, seed int, overlay map[string][]byte, quiet bool) *runOutcome {
 	ro := &runOutcome{byBackend: map[string]int{}}
 	t0 := time.Now()
+	namesPath = filepath.Join(root, "contracts", "names.json")
 	eng, err := loadEngine(repo, pc.Packages, overlay)
 	if err != nil {
 		ro.undecided = err.Error()
 		return ro
 	}
 	ro.loadS = time.Since(t0).Seconds()
+	ro.curNames = eng.curNames
+	for _, r := range eng.renameNotes {
+		ro.notes = append(ro.notes, "NOTE "+r)
+	}
 	for _, d := range eng.drift {
 		ro.notes = append(ro.notes, "NOTE contract anchor lost: "+d)
 	}
@@ -481,6 +487,16 @@ func checkMain(args []string) {
 		os.MkdirAll(filepath.Join(root, "contracts", "expected"), 0o755)
 		os.WriteFile(filepath.Join(root, "contracts", "expected", pc.ID+".json"), append(data, '\n'), 0o644)
 		fmt.Printf("baseline: %d obligations claimed for %s\n", len(names), pc.ID)
+		// the names of parameters and locals the contracts were written against
+		all := map[string]FuncNames{}
+		if data, err := os.ReadFile(namesPath); err == nil {
+			json.Unmarshal(data, &all)
+		}
+		for k, v := range ro.curNames {
+			all[k] = v
+		}
+		nd, _ := json.MarshalIndent(all, "", " ")
+		os.WriteFile(namesPath, append(nd, '\n'), 0o644)
 		return
 	}
 	wall := time.Since(t0).Seconds()
